@@ -643,6 +643,10 @@ def m_str_join(interp, self, args, kwargs):
     src = args[0]
     if isinstance(src, (SOpt, SChoice)):
         src = interp.resolve(src)
+    from .mlist import MList
+    if isinstance(src, MList):
+        from . import mlist
+        return mlist.join(interp, self, src)
     if isinstance(src, SList):
         from . import strings
         return strings.join_slist(interp, self, src)
